@@ -3,11 +3,11 @@
    Model 2: the rules of dirfile-format(5) "Field Names" (+ HISTORY) for a new
    field name checked in pedantic mode (type GD_VF_NAME, no namespace part).
 
-   fx = false: the code as it is.  fx = true: with proposed_fixes/C08-3.diff
-   ('#' and the space are refused up to Standards Version 5, as the text says:
-   "Standards Version 5 and earlier also prohibit whitespace and the comment
-   delimiter (#) in field names"; the code tests '#' at Version 5 only and the
-   space never). *)
+   fx = true: the code as it is (since /repo commit be0b187: '#' and the space
+   are refused up to Standards Version 5, as the text says: "Standards Version
+   5 and earlier also prohibit whitespace and the comment delimiter (#) in
+   field names").  fx = false: the code before that commit ('#' tested at
+   Version 5 only, the space never); kept for the regression lemmas. *)
 From Coq Require Import List NArith Bool Arith Lia.
 From GD Require Import C08.Standards Gen.Gates C08.GatesDefs.
 Import ListNotations.
